@@ -252,6 +252,7 @@ def corpus_hsm(ctx, e):
 
 
 def stage_transport(ctx, n):
+    from props import c14
     """`TransportGroupIO.pull_force` on real Transport groups (1-4 local transport nodes with random free space, minimum /
     maximum settings and `fits` answers; local and remote sources) vs Lean `transportPick` vs the rule oracle"""
     import world as worldmod
@@ -295,7 +296,7 @@ def stage_transport(ctx, n):
             recs = []
             for un in uns:
                 nd = un.db
-                recs.append((nd.id, None if nd.avail_gb is None else round(nd.avail_gb * 2 ** 20), bool(nd.under_min), bool(nd.check_over_max()), fits[nd.id]))
+                recs.append((nd.id, None if nd.avail_gb is None else round(nd.avail_gb * 2 ** 20), c14.under_min(nd), c14.at_limit(db, nd), fits[nd.id]))
             lines.append(f"tpick {int(local)} " + ",".join(f"{i}:{'-' if a is None else a}:{int(u)}:{int(o)}:{int(ft)}" for i, a, u, o, ft in recs))
             metas.append((local, recs, picked))
     outs = common.Driver().batch(lines)
